@@ -13,6 +13,7 @@
 package main
 
 import (
+	"bufio"
 	"encoding/hex"
 	"encoding/json"
 	"fmt"
@@ -20,6 +21,7 @@ import (
 	"math/big"
 	"math/rand"
 	"os"
+	"os/exec"
 	"path/filepath"
 	"runtime"
 	"sort"
@@ -684,7 +686,11 @@ const (
 
 const worldReadTag = "block with a world read lock: "
 
-var failures int // oracle failures so far, not counting the known world-read-lock finding
+// the second known finding (Reset of a retried transaction panics on an account that is not
+// in the base snapshot); like the world-read-lock one it does not count towards maxFailures
+const resetPanicMark = "Reset with invalid snapshot"
+
+var failures int // oracle failures so far, not counting the known findings
 
 func committed(t *htx) bool {
 	p := t.wvs.Load()
@@ -868,7 +874,7 @@ func drive(b *block, blockDone func() bool) string {
 	}
 }
 
-func runBlock(bc0 *blockCase, sequential bool) observation {
+func runBlockLocal(bc0 *blockCase, sequential bool) observation {
 	var o observation
 	bcCopy := *bc0
 	bc := &bcCopy
@@ -974,6 +980,172 @@ func runBlock(bc0 *blockCase, sequential bool) observation {
 		o.Obs = append(o.Obs, append([]int64{}, b.txs[i].obs...))
 	}
 	return o
+}
+
+// ---------------------------------------------------------------------------
+// process isolation: blocks are executed in a child process (`hx-c09 worker`),
+// because a panic inside a worker goroutine of executeTxsConcurrent (outside
+// Handler.Execute) cannot be recovered and would take the harness down with it.
+// A crash of the child is an oracle failure ("panic") of the block it was running.
+// ---------------------------------------------------------------------------
+
+type workerReq struct {
+	BC  blockCase `json:"bc"`
+	Seq bool      `json:"seq"`
+}
+
+type tailBuf struct {
+	mu  sync.Mutex
+	buf []byte
+}
+
+func (t *tailBuf) Write(p []byte) (int, error) {
+	t.mu.Lock()
+	defer t.mu.Unlock()
+	t.buf = append(t.buf, p...)
+	if len(t.buf) > 1<<16 {
+		t.buf = t.buf[:1<<16] // the beginning of a crash report is what matters
+	}
+	return len(p), nil
+}
+
+func (t *tailBuf) String() string {
+	t.mu.Lock()
+	defer t.mu.Unlock()
+	return string(t.buf)
+}
+
+type child struct {
+	cmd    *exec.Cmd
+	in     io.WriteCloser
+	out    *bufio.Reader
+	stderr *tailBuf
+}
+
+var theChild *child
+
+func startChild() (*child, error) {
+	exe, err := os.Executable()
+	if err != nil {
+		return nil, err
+	}
+	cmd := exec.Command(exe, "worker")
+	in, err := cmd.StdinPipe()
+	if err != nil {
+		return nil, err
+	}
+	outp, err := cmd.StdoutPipe()
+	if err != nil {
+		return nil, err
+	}
+	tb := &tailBuf{}
+	cmd.Stderr = tb
+	if err := cmd.Start(); err != nil {
+		return nil, err
+	}
+	return &child{cmd: cmd, in: in, out: bufio.NewReaderSize(outp, 1<<20), stderr: tb}, nil
+}
+
+func (c *child) kill() {
+	c.in.Close()
+	c.cmd.Process.Kill()
+	c.cmd.Wait()
+}
+
+// the lines of a Go crash report that say what happened
+func crashSummary(stderr string) string {
+	var keep []string
+	for _, ln := range strings.Split(stderr, "\n") {
+		ln = strings.TrimSpace(ln)
+		switch {
+		case strings.HasPrefix(ln, "P|"): // goloop log.Panic line: P|time|...|file:line message
+			if f := strings.SplitN(ln, "|", 6); len(f) == 6 {
+				ln = f[5]
+			}
+			keep = append(keep, ln)
+		case strings.HasPrefix(ln, "panic: (*logrus.Entry)"): // the log.Panic line above says it
+		case strings.HasPrefix(ln, "panic:"), strings.HasPrefix(ln, "fatal error:"):
+			keep = append(keep, ln)
+		case strings.HasPrefix(ln, "github.com/icon-project/goloop/service") && len(keep) > 0 && len(keep) < 5:
+			cut := len(ln)
+			for _, m := range []string{"(0x", "({", "(..."} {
+				if i := strings.Index(ln, m); i > 0 && i < cut {
+					cut = i
+				}
+			}
+			keep = append(keep, "at "+strings.TrimPrefix(ln[:cut], "github.com/icon-project/goloop/"))
+		}
+		if len(keep) >= 5 {
+			break
+		}
+	}
+	if len(keep) == 0 {
+		return "no crash report"
+	}
+	return strings.Join(keep, "; ")
+}
+
+func runBlock(bc *blockCase, sequential bool) observation {
+	if os.Getenv("C09_INPROCESS") != "" {
+		return runBlockLocal(bc, sequential)
+	}
+	if theChild == nil {
+		c, err := startChild()
+		if err != nil {
+			panic("harness: cannot start the worker process: " + err.Error())
+		}
+		theChild = c
+	}
+	c := theChild
+	req, _ := json.Marshal(workerReq{BC: *bc, Seq: sequential})
+	type reply struct {
+		line []byte
+		err  error
+	}
+	ch := make(chan reply, 1)
+	go func() {
+		if _, err := c.in.Write(append(req, '\n')); err != nil {
+			ch <- reply{nil, err}
+			return
+		}
+		line, err := c.out.ReadBytes('\n')
+		ch <- reply{line, err}
+	}()
+	var o observation
+	select {
+	case r := <-ch:
+		if r.err == nil && json.Unmarshal(r.line, &o) == nil {
+			return o
+		}
+		// the child died while it was running this block
+		c.cmd.Wait()
+		theChild = nil
+		return observation{Panic: "the process crashed: " + crashSummary(c.stderr.String())}
+	case <-time.After(3*watchdog + 5*time.Second):
+		c.kill()
+		theChild = nil
+		return observation{Deadlock: "block execution did not return (worker process killed)"}
+	}
+}
+
+func workerLoop() {
+	in := bufio.NewReaderSize(os.Stdin, 1<<20)
+	out := bufio.NewWriter(os.Stdout)
+	runtime.GOMAXPROCS(max(4, runtime.NumCPU()))
+	for {
+		line, err := in.ReadBytes('\n')
+		if err != nil {
+			return
+		}
+		var req workerReq
+		if json.Unmarshal(line, &req) != nil {
+			return
+		}
+		o := runBlockLocal(&req.BC, req.Seq)
+		b, _ := json.Marshal(o)
+		out.Write(append(b, '\n'))
+		out.Flush()
+	}
 }
 
 // ---------------------------------------------------------------------------
@@ -1292,6 +1464,34 @@ func genWorldReadTarget(r *rand.Rand) *blockCase {
 	return bc
 }
 
+// a block whose LAST transaction is retried after a reset; the transaction before
+// it often holds the world write lock (then the last virtual state is created from a
+// committed parent: base != nil), and the accounts are often empty
+func genRetryBlock(r *rand.Rand) *blockCase {
+	bc := &blockCase{Init: make([]int64, NA+1)}
+	for a := range bc.Init {
+		if r.Intn(2) == 0 {
+			bc.Init[a] = int64(r.Intn(40))
+		}
+	}
+	na := 3
+	mk := func(style int) txSpec {
+		var prog []instr
+		for j := 0; j < 1+r.Intn(3); j++ {
+			prog = append(prog, genInstr(r, na, false))
+		}
+		return txSpec{Locks: genLocks(r, prog, style, na), Prog: prog}
+	}
+	for i := 0; i < r.Intn(3); i++ {
+		bc.Txs = append(bc.Txs, mk([]int{0, 1, 4}[r.Intn(3)]))
+	}
+	bc.Txs = append(bc.Txs, mk([]int{2, 2, 1}[r.Intn(3)]))
+	last := mk([]int{0, 1, 1, 4}[r.Intn(4)])
+	last.FailFirst = true
+	bc.Txs = append(bc.Txs, last)
+	return bc
+}
+
 func genBlock(r *rand.Rand, worldRead bool) *blockCase {
 	if !worldRead && r.Intn(4) == 0 {
 		return genHotBlock(r)
@@ -1304,6 +1504,9 @@ func genBlock(r *rand.Rand, worldRead bool) *blockCase {
 	bc := &blockCase{Init: make([]int64, NA+1)}
 	for a := range bc.Init {
 		bc.Init[a] = int64(r.Intn(60))
+		if r.Intn(5) == 0 {
+			bc.Init[a] = 0 // an account that does not exist yet
+		}
 	}
 	for i := 0; i < n; i++ {
 		k := r.Intn(5)
@@ -1403,7 +1606,7 @@ func emit(c *hxlib.Ctx, kind string, bc *blockCase, r *rand.Rand, sc *seqCache) 
 		cs.Coq = coqCase(bc, seq, conc, r.Int63n(1<<31))
 	}
 	c.Emit(cs)
-	if msg != "" && !strings.HasPrefix(msg, worldReadTag) {
+	if msg != "" && !strings.HasPrefix(msg, worldReadTag) && !strings.Contains(msg, resetPanicMark) {
 		failures++
 	}
 	return msg
@@ -1557,6 +1760,14 @@ func gen(c *hxlib.Ctx) {
 			emit(c, "random/"+b.Sched.Kind, &b, r, &sc)
 		}
 	}
+	// (2b) retried transactions behind a world writer
+	for i := 0; i < c.N(12) && failures < maxFailures; i++ {
+		bc := genRetryBlock(r)
+		for _, b := range schedules(r, bc, 3) {
+			b := b
+			emit(c, "retry/"+b.Sched.Kind, &b, r, &sc)
+		}
+	}
 	// (3) programs with a world read lock (requested by no handler in the tree), serial schedules only
 	for i := 0; i < c.N(30) && failures < maxFailures; i++ {
 		bc := genBlock(r, true)
@@ -1618,6 +1829,10 @@ func replay(raw json.RawMessage) string {
 }
 
 func main() {
+	if len(os.Args) > 1 && os.Args[1] == "worker" {
+		workerLoop()
+		return
+	}
 	hxlib.Main(hxlib.Spec{
 		ID:       "C09",
 		Preamble: "From Goloop Require Import Model_VirtualState.\nFrom GoloopRun Require Import Run_C09.",
